@@ -18,6 +18,7 @@ import (
 	"os"
 	"runtime/debug"
 	"strconv"
+	"strings"
 
 	"github.com/ollama/ollama/fs/ggml"
 	"verifharness/cmd/c05/ggdump"
@@ -90,6 +91,20 @@ func loadAccessors(f *ggml.GGML) map[string]any {
 	run("SupportsFlashAttention", func() any { return f.SupportsFlashAttention() })
 	run("GroupLayers", func() any { return len(f.Tensors().GroupLayers()) })
 	return out
+}
+
+// arrCode: number of elements an array accessor returned, 1000000 for an index panic, 1000001 for any other panic
+func arrCode(f func() int) (code int) {
+	defer func() {
+		if r := recover(); r != nil {
+			if strings.Contains(fmt.Sprint(r), "index out of range") {
+				code = 1000000
+			} else {
+				code = 1000001
+			}
+		}
+	}()
+	return f()
 }
 
 // the two shapes in which server code hands raw bytes to ggml.DetectContentType
@@ -209,6 +224,12 @@ func main() {
 				if d.File != nil {
 					out["acc"] = createShowAccessors(d.File)
 					out["acc2"] = loadAccessors(d.File)
+					kv := d.File.KV()
+					out["arr"] = []int{
+						arrCode(func() int { return len(kv.Strings("tokenizer.ggml.tokens")) }),
+						arrCode(func() int { return len(kv.Uints("tokenizer.ggml.token_type")) }),
+						arrCode(func() int { return len(kv.Floats("tokenizer.ggml.scores")) }),
+					}
 				}
 				return out
 			case "detect":
